@@ -88,6 +88,12 @@ pub struct Circuit {
     pub learned: bool,
 }
 
+thread_local! {
+    /// Set by shrinkers: `confirm_ok` answers from the constraint evaluator instead of proving.
+    pub static FAST_CONFIRM: std::cell::Cell<bool> = const { std::cell::Cell::new(false) };
+    static CONFIRMS: std::cell::Cell<u32> = const { std::cell::Cell::new(0) };
+}
+
 pub struct RunResult<'a> {
     pub outcome: Outcome,
     pub witness: Option<PartitionWitness<'a, F>>,
@@ -355,6 +361,25 @@ impl Circuit {
             witness: if keep_witness { Some(witness) } else { None },
             gen_trace: vec![],
         }
+    }
+
+    /// `confirm` without the proof; while a shrinker is re-deciding candidates on this thread
+    /// (`FAST_CONFIRM`), the evaluator's verdict stands in for the real prover — the final shrunk
+    /// case is confirmed with the real prover again.
+    pub fn confirm_ok(&self, inputs: &[(Target, F)], replaced: &[Replace]) -> Result<(), String> {
+        // After a dozen real-prover confirmations on this thread the evaluator has been cross-checked
+        // often enough: further disagreements (a broken tree produces thousands) are decided by it alone.
+        let many = CONFIRMS.with(|c| {
+            c.set(c.get() + 1);
+            c.get() > 12
+        });
+        if many || FAST_CONFIRM.with(|c| c.get()) {
+            return match self.eval(inputs, replaced) {
+                o if o.is_sat() => Ok(()),
+                o => Err(o.short()),
+            };
+        }
+        self.confirm(inputs, replaced).map(|_| ())
     }
 
     /// Ground truth: hand the witness produced by (inputs, replaced) to the real
